@@ -102,12 +102,12 @@ var namePool = []string{"a.go", "b.py", "c.txt", "d/a.go", "d/b.py", "d/e/f.go",
 	"x.go", "Main.go", "e/h.py", "d", "d/e", "lib", "sub", "mods/m1", "e/h.py/z.go"}
 
 func content(rng *rand.Rand, name string) string {
-	switch rng.Intn(10) {
-	case 0:
+	switch rng.Intn(40) {
+	case 0, 1, 2, 3:
 		return ""
-	case 1:
-		return strings.Repeat("x\n", 520+rng.Intn(300)) // longer than the 1 KiB language sniffing buffer
-	case 2:
+	case 4:
+		return strings.Repeat("x\n", 510+rng.Intn(6)) // around the 1 KiB language sniffing buffer
+	case 5, 6, 7, 8:
 		return "package a\n"
 	default:
 		return fmt.Sprintf("v%d\n", rng.Intn(6))
@@ -466,12 +466,10 @@ func langflip(c *Config, n int) {
 	}
 }
 
-func rng3(rng *rand.Rand) bool { return true }
-
 func emptymatch(c *Config, n int) {
 	for i := 0; i < n; i++ {
 		k := 2 + c.Rng.Intn(4)
-		commits := history(c.Rng, randomParents(c.Rng, k, rng3(c.Rng), false))
+		commits := history(c.Rng, randomParents(c.Rng, k, true, false))
 		var ops []opT
 		for j := 0; j < k; j++ {
 			ops = append(ops, opT{kind: "consume", b: 0, c: j})
@@ -537,23 +535,23 @@ func malformed(c *Config, n int) {
 func generate(c *Config) {
 	rng := c.Rng
 	pairs(c)
-	for i := c.Count(600, 12000); i > 0; i-- {
+	for i := c.Count(2500, 10000); i > 0; i-- {
 		k := 2 + rng.Intn(7)
 		parents := randomParents(rng, k, true, false)
 		emit(c, draw(rng, "linear", parents, stableCfg(rng), plan(parents)))
 	}
-	for i := c.Count(900, 20000); i > 0; i-- {
+	for i := c.Count(4000, 16000); i > 0; i-- {
 		k := 3 + rng.Intn(8)
 		parents := randomParents(rng, k, false, true)
 		emit(c, draw(rng, "dag", parents, stableCfg(rng), plan(parents)))
 	}
-	for i := c.Count(500, 10000); i > 0; i-- {
+	for i := c.Count(2500, 10000); i > 0; i-- {
 		k := 3 + rng.Intn(6)
 		parents := randomParents(rng, k, false, true)
 		cfg := stableCfg(rng)
 		emit(c, draw(rng, "wrong", parents, cfg, perturb(rng, plan(parents), k)))
 	}
-	malformed(c, c.Count(400, 8000))
-	langflip(c, c.Count(20, 200))
-	emptymatch(c, c.Count(20, 200))
+	malformed(c, c.Count(2000, 8000))
+	langflip(c, c.Count(30, 200))
+	emptymatch(c, c.Count(300, 1500))
 }
